@@ -164,7 +164,7 @@ class SimProcess:
             code = 0
             try:
                 os.close(r)
-                payload = self._child(t_start)
+                payload = self._child(t_start, w)
                 data = pickle.dumps(payload)
                 off = 0
                 while off < len(data):
@@ -213,7 +213,7 @@ class SimProcess:
     def _dicts(self):
         return [a for a in self.args if isinstance(a, SimDict)]
 
-    def _child(self, t_start):
+    def _child(self, t_start, wfd):
         s = seams.SIM
         s.worker = self.index
         s.now = t_start
@@ -228,6 +228,29 @@ class SimProcess:
         args = tuple(rec if isinstance(a, SimDict) else a for a in self.args)
         status = 0
         exc = None
+
+        def report(status, exc, t_end):
+            return {
+                "effects": rec.effects,
+                "t_end": t_end,
+                "status": status,
+                "exc": exc,
+                "counts": s.counts,
+                "fired": s.fired,
+                "probes": s.probes,
+                "expiry_sites": sorted(s.expiry_sites),
+                "unknown_sites": sorted(s.unknown_sites),
+                "digest": s.digest()[:16],
+            }
+
+        def crash_now():
+            data = pickle.dumps(report(-9, "killed", s.now))
+            off = 0
+            while off < len(data):
+                off += os.write(wfd, data[off : off + 65536])
+            os._exit(0)
+
+        s.on_crash = crash_now
         try:
             self.target(*args, **self.kwargs)
         except seams.WorkerCrash:
@@ -243,18 +266,7 @@ class SimProcess:
             t_end += float(f["dur"])
             s.fire("exit_stall")
         del base_counts
-        return {
-            "effects": rec.effects,
-            "t_end": t_end,
-            "status": status,
-            "exc": exc,
-            "counts": s.counts,
-            "fired": s.fired,
-            "probes": s.probes,
-            "expiry_sites": sorted(s.expiry_sites),
-            "unknown_sites": sorted(s.unknown_sites),
-            "digest": s.digest()[:16],
-        }
+        return report(status, exc, t_end)
 
     def join(self, timeout=None):
         s = seams.SIM
